@@ -14,6 +14,8 @@ import math
 
 import numpy as np
 
+from .. import harness as H
+
 from .. import shim
 from .. import smooth as S
 from ..oracles import whittaker as W
@@ -313,14 +315,14 @@ def shard_accessor(spec, R):
                 y = np.where(y == nodata, y + 1, y)
                 m = S.gen_mask(rng, nt, min_valid=None if rng.random() < 0.1 else 5)
                 cube[a, b] = np.where(m, nodata, y)
-        named = bool(it % 2)
+        named = bool(H.pick(it, 1, 2))
         da = xr.DataArray(cube, dims=["y", "x", "time"], coords={"time": pd.date_range("2020-01-01", periods=nt, freq="10D")},
                           attrs={"nodata": nodata}, name="ndvi" if named else None)
-        order = [("y", "x", "time"), ("time", "y", "x"), ("y", "time", "x")][it % 3]
+        order = [("y", "x", "time"), ("time", "y", "x"), ("y", "time", "x")][H.pick(it, 2, 3)]
         da = da.transpose(*order)
-        use_p = bool((it // 2) % 2)
-        p = float([0.5, rng.uniform(0.05, 0.95), 0.99, rng.uniform(0.05, 0.95), 0.01][it % 5]) if use_p else None
-        mode = it % 4  # 0: all defaults (robust=True, default grid); 1: robust False; 2: custom grid; 3: custom grid robust False
+        use_p = bool(H.pick(it, 3, 2))
+        p = float([0.5, rng.uniform(0.05, 0.95), 0.99, rng.uniform(0.05, 0.95), 0.01][H.pick(it, 4, 5)]) if use_p else None
+        mode = H.pick(it, 5, 4)  # 0: all defaults (robust=True, default grid); 1: robust False; 2: custom grid; 3: custom grid robust False
         kw = {}
         llas = np.arange(-1.8, 4.2, 0.2)
         robust = True
